@@ -402,5 +402,9 @@ def run(ctx):
 
     check_eviction(rep, prog)
     from rules import flow_common
+    rep.rule("FM-9", "a slave port whose BMCA recommendation names ANOTHER master re-initialises its slave state for that "
+                     "master (a silent parent is replaced, not kept as measurement source) - shared with C07 NI-6", floor=1)
+    from rules import share as _share
+    _share.share(ctx, rep, "c07", "NI-6", "FM-9")
     flow_common.check_ageing_step(rep, prog, "FM-8")
     flow_common.check_window_interval(rep, prog, "FM-8")
